@@ -207,10 +207,25 @@ func c19Run(input string) string {
 	}
 	// session / store managers are process wide: make user names unique per case and per process
 	prefix := fmt.Sprintf("p%dc%d-", os.Getpid(), atomic.AddUint64(&c19Counter, 1))
-	user := func(u string) string { return prefix + u }
+	created := map[string]bool{}
+	// the profile "nobody" has the EMPTY user id (legal for a profile that keeps its keys on a key server; nothing here
+	// talks to that server): "no user" and "the user with the empty id" are different answers of a lookup. The session
+	// manager is process wide, so the case closes that wallet before it ends.
+	user := func(u string) string {
+		if u == "nobody" {
+			return ""
+		}
+		return prefix + u
+	}
+	defer func() {
+		if created["nobody"] {
+			if w, err := wallet.New("", ctx); err == nil {
+				w.Close()
+			}
+		}
+	}()
 	var tokens []string
 	tokenOwner := map[string]string{}
-	created := map[string]bool{}
 	tok := func(t string) string {
 		if strings.HasPrefix(t, "t") {
 			i, err := strconv.Atoi(t[1:])
@@ -239,7 +254,11 @@ func c19Run(input string) string {
 		o := "bad-op"
 		switch f[0] {
 		case "create":
-			err := wallet.CreateProfile(user(f[1]), ctx, wallet.WithPassphrase("pass-"+f[1]))
+			popt := wallet.WithPassphrase("pass-" + f[1])
+			if f[1] == "nobody" {
+				popt = wallet.WithKeyServerURL("http://localhost:1/kms/keystores/verif")
+			}
+			err := wallet.CreateProfile(user(f[1]), ctx, popt)
 			if err == nil {
 				created[f[1]] = true
 				o = "ok"
@@ -259,6 +278,13 @@ func c19Run(input string) string {
 				pass = "wrong"
 			}
 			opts := []wallet.UnlockOptions{wallet.WithUnlockByPassphrase(pass)}
+			if f[1] == "nobody" {
+				opts = []wallet.UnlockOptions{wallet.WithUnlockByAuthorizationToken("verif-kms-auth")}
+				if f[0] == "openbad" {
+					o = "err" // (an authorization token is not checked locally: no wrong-secret variant for this profile)
+					break
+				}
+			}
 			if f[0] == "openshort" {
 				opts = append(opts, wallet.WithUnlockExpiry(c19ShortExpiry))
 			}
@@ -437,6 +463,11 @@ func c19Gen(r *Rng, tier string) []string {
 				ops = append(ops, "create "+users[u])
 				isCreated[users[u]] = true
 			}
+		}
+		if r.N(4) == 0 {
+			// the profile with the empty user id is open as well: its token is one more foreign token for everybody else
+			ops = append(ops, "create nobody", "open nobody")
+			ntok++
 		}
 		for u := 0; u < nu; u++ {
 			if isCreated[users[u]] && r.N(4) > 0 {
